@@ -526,6 +526,16 @@ def _splice_statement(m: ast.FunctionDef, call: ast.Call, helper: ast.FunctionDe
             out = out + mk(None, st)
         if not out:
             out = [ast.copy_location(ast.Pass(), st)]
+    # the spliced statements take the position of the call in the caller (rules order statements by line); the line they really
+    # stand on is kept as `src_lineno` and is what reports print
+    for b in pre + out:
+        for x in ast.walk(b):
+            if hasattr(x, "lineno"):
+                if not hasattr(x, "src_lineno"):
+                    x.src_lineno = x.lineno
+                x.lineno = st.lineno
+                if hasattr(x, "end_lineno"):
+                    x.end_lineno = getattr(st, "end_lineno", st.lineno)
     lst[i:i + 1] = pre + out
     ast.fix_missing_locations(m)
 
